@@ -188,9 +188,9 @@ class Setup:
         kw = {}
         if self.dtype == "int":
             kw["dtype"] = np.int64
-        return df.Field(self.mesh(), nvdim=self.nv, value=self.arr.copy(),
-                        valid=self.valid.copy(), vdims=self.vdims, vdim_mapping=self.mapping,
-                        unit=self.unit, **kw)
+        return gen.via_history(None, df.Field(
+            self.mesh(), nvdim=self.nv, value=self.arr.copy(), valid=self.valid.copy(),
+            vdims=self.vdims, vdim_mapping=self.mapping, unit=self.unit, **kw))
 
     def rotate(self, obj, k=None, inplace=False):
         return obj.rotate90(self.names[self.a], self.names[self.b],
